@@ -359,7 +359,6 @@ theorem createNextTable_log (k : Kind) (s : St) (p4 : Word) (r : List Nat) (tbl 
   · have hu' : Pte.isUnused (s.mem tbl i) = false := by simpa using hu
     have hne : s.mem tbl i ≠ 0#64 := by
       intro h0; rw [h0] at hu'; simp [Pte.isUnused] at hu'
-    have hP : Pte.present (s.mem tbl i) = true := hinv.pres r tbl i (by omega) hri hr hi hne
     simp only [hu', Bool.false_eq_true, if_false]
     have rdonly : CreateLog p4 s (s.rd tbl i).2 [.rd tbl i] 1 :=
       CreateLog.of_memEq rfl (by simp) (by intro ev h; simp at h; exact Or.inl ⟨i, h⟩) htbl (by simp [allocCount, List.filter, Ev.isAlloc])
@@ -367,6 +366,7 @@ theorem createNextTable_log (k : Kind) (s : St) (p4 : Word) (r : List Nat) (tbl 
     · simp only [hh, if_true]
       exact ⟨_, rdonly⟩
     · have hS : Pte.huge (s.mem tbl i) = false := by simpa using hh
+      have hP : Pte.present (s.mem tbl i) = true := hinv.present_of_not_huge r tbl i hrl hri hr hi hne hS
       simp only [hS, Bool.false_eq_true, if_false]
       have hnt0 : nextTable (s.mem tbl i) = .ok (Pte.addr (s.mem tbl i)) := by
         unfold nextTable; simp [hS, hP]
@@ -537,9 +537,10 @@ theorem createPath_exists (k : Kind) (pflags : Word) (p4 : Word) (hpf : ParentFl
 /-! ### Operations that never allocate: unmap, update_flags, set_flags_pN_entry, translate_page -/
 
 /-- The recursive mapper's descent (`is_unused` first, no `PRESENT` test) also only reads tables of
-the hierarchy — provided every non-zero entry of a table is present (part of the state invariant). -/
+the hierarchy — provided every non-zero entry of a table is present or a leaf entry (part of the state
+invariant): an entry the descent follows is a non-huge entry of a level-4/3/2 table. -/
 theorem descendU_events (p4 : Word) : ∀ (path r : List Nat) (tbl : Word) (s : St),
-    AllPresent s.mem p4 →
+    LeafOrPresent s.mem p4 →
     tblAt s.mem p4 r = some tbl → r.length + path.length ≤ 3 → IdxOK (r ++ path) →
     ∃ seg, (descendU s tbl path).2.events = s.events ++ seg ∧
       (descendU s tbl path).2.mem = s.mem ∧ (descendU s tbl path).2.allocs = s.allocs ∧
@@ -577,7 +578,11 @@ theorem descendU_events (p4 : Word) : ∀ (path r : List Nat) (tbl : Word) (s : 
           · rename_i hh
             have hne : s.mem tbl i ≠ 0#64 := by
               intro h0; rw [h0] at hu; simp [Pte.isUnused] at hu
-            have hP := hap r tbl i hrl hri hr hi hne
+            have hP : Pte.present (s.mem tbl i) = true := by
+              rcases hap r tbl i hrl hri hr hi hne with h | h | ⟨_, h⟩
+              · exact h
+              · simp at hlen; omega
+              · exact absurd h hh
             cases hnt
             unfold tableOf
             simp [hP, hh]
@@ -608,8 +613,9 @@ theorem descend_events' (p4 : Word) (path r : List Nat) (tbl : Word) (s : St)
   have := (descend_ok_iff s tbl path t).1 ht
   rw [tblAt_append, hr]; simpa using this
 
-/-- When is the descent of mapper kind `k` covered: the recursive kind needs "non-zero ⇒ present". -/
-def KindOK (k : Kind) (m : PMem) (p4 : Word) : Prop := k.recursive = true → AllPresent m p4
+/-- When is the descent of mapper kind `k` covered: the recursive kind needs "non-zero ⇒ present or a
+leaf entry" (the entry part of the state invariant `Inv`). -/
+def KindOK (k : Kind) (m : PMem) (p4 : Word) : Prop := k.recursive = true → LeafOrPresent m p4
 
 theorem descendK_events (k : Kind) (p4 : Word) (path : List Nat) (s : St) (hk : KindOK k s.mem p4)
     (hlen : path.length ≤ 3) (hidx : IdxOK path) :
